@@ -38,6 +38,11 @@ def check_model(case, ctx):
     p_other = dict(p)
     p_other["conservative_bound"] = not p["conservative_bound"]
     decoy2 = Decoy(lambda: ADWIN(**p_other), lambda d, v: d.update(v), every=1)  # same stream, other bound
+    # a third object with the other bound sees the whole stream before the judged object starts: whatever it may have
+    # left behind outside itself (class attributes, module caches) is then in place for every window size
+    decoy3 = Decoy(lambda: ADWIN(**p_other), lambda d, v: d.update(v), every=1)
+    for x_ in xs:
+        decoy3.step(x_)
     fk = Forker(AdwinModel(*[p[k] for k in PKEYS]), copier=lambda m: m.clone())
     ndrift = 0
     for i, x in enumerate(xs):
